@@ -247,7 +247,8 @@ def run_check(prop, tier, module, explanation, assumptions, level="other", extra
     """Drive one property check. `module.run(ctx)` registers obligations."""
     t0 = time.time()
     seed = int(os.environ.get("VERIF_SEED", "0") or 0)
-    evidence_path = os.path.join(VERIF, "evidence", "%s.json" % prop)
+    evdir = os.environ.get("VERIF_EVIDENCE_DIR") or os.path.join(VERIF, "evidence")
+    evidence_path = os.path.join(evdir, "%s.json" % prop)
     os.makedirs(os.path.dirname(evidence_path), exist_ok=True)
     cfgs = ["default"] + (list(extra_cfgs) if tier == "thorough" else [])
     all_obl = []
@@ -296,7 +297,7 @@ def run_check(prop, tier, module, explanation, assumptions, level="other", extra
         else:
             new_viol.append(v)
 
-    vdir = os.path.join(VERIF, "evidence", "violations")
+    vdir = os.path.join(evdir, "violations")
     os.makedirs(vdir, exist_ok=True)
     for f in glob.glob(os.path.join(vdir, "%s-*.json" % prop)):
         os.remove(f)
